@@ -416,13 +416,15 @@ def expected(s0, op):
         m_attach_last(s, x, holder)
         return [s], ANY
     if k == 'floordiv':
+        # documented as children += other, i.e. children = children + other: a task that is already a child may keep its
+        # place (first occurrence) or move last (last occurrence) -- both are admissible
         _, holder, L, _single = op
         holder = tuple(holder)
+        seq = list(_hl(s, holder)) + [x for x in L if x is not None]
         outs = []
-        for LL in ([uniq_first(L)] if uniq_first(L) == uniq_last(L) else [uniq_first(L), uniq_last(L)]):
+        for LL in ([uniq_first(seq)] if uniq_first(seq) == uniq_last(seq) else [uniq_first(seq), uniq_last(seq)]):
             a = copy.deepcopy(s)
-            for x in LL:
-                m_attach_last(a, x, holder)
+            m_set_children(a, holder, LL)
             outs.append(a)
         return outs, ANY
     if k == 'lremove':
